@@ -3725,12 +3725,18 @@ class DecVarSub(VarSub):
 
     def affadapt(self, rvars):
 
-        if self.vtype in ['B', 'I']:
+        vtype = self.vtype
+        if len(vtype) > 1:
+            # one letter per entry of the array: those of this slice
+            vtype = ''.join(vtype[i] for i in np.array(self.indices).flatten())
+        if 'B' in vtype or 'I' in vtype:
             raise ValueError('No affine adaptation for integer variables.')
         if self.dro_model is not rvars.model.top:
             raise ValueError('Model mismatch.')
 
         self.fixed = False
+        # dependencies declared through other slices of the same array
+        self.rand_adapt = self.dvars.rand_adapt
         if self.rand_adapt is None:
             sup_model = self.dro_model.sup_model
             self.rand_adapt = np.zeros((self.size, sup_model.vars[-1].last),
